@@ -18,8 +18,9 @@ Emitted (all `list (string * string)`, sorted unless the order is the fact):
                                                  assignment, `global`/`nonlocal` declarations, calls of mutator
                                                  methods), PLUS every attribute/item assignment through a
                                                  function parameter other than self/cls (may alias a global),
-                                                 PLUS attribute/item assignment through a local that was bound
-                                                 to an expression mentioning a global
+                                                 (PARAM-WRITE, with the assigned expression; PARAM-CALL for mutator
+                                                 methods), PLUS the same through a local that was bound, transitively,
+                                                 to an expression mentioning a global (ALIAS-WRITE / ALIAS-CALL)
   registry_method_writes(Class.method, target)   self-attribute/item writes inside the classes that have a
                                                  module-level instance in the package (ActionNames, …)
   registry_mutator_calls(module:function, text)  every call, from a function body, of a method listed in
@@ -407,12 +408,19 @@ def _uses():
                     return True
                 return name in vis and name not in params and name not in bound
 
-            # locals bound to an expression that mentions a global (possible alias)
+            # locals bound to an expression that mentions a global, or (transitively) such a local: possible aliases.
+            # (locals derived from parameters are NOT followed: they are mostly fresh copies; the dynamic fingerprints of the
+            # correspondence cover that route)
             tainted = set()
-            for name, vals in bound.items():
-                for v in vals:
-                    if any(isinstance(n, ast.Name) and is_global_name(n.id) for n in ast.walk(v)):
-                        tainted.add(name)
+            changed = True
+            while changed:
+                changed = False
+                for name, vals in bound.items():
+                    for v in vals:
+                        names = {n.id for n in ast.walk(v) if isinstance(n, ast.Name)}
+                        if name not in tainted and any(is_global_name(n) or n in tainted for n in names):
+                            tainted.add(name)
+                            changed = True
 
             parent = {}
             for x in nodes:
@@ -445,6 +453,7 @@ def _uses():
                 elif root in tainted:
                     writes.append((where, f"ALIAS-WRITE-{how} {_txt(t)}{val}"))
 
+
             for x in nodes:
                 if isinstance(x, ast.Assign):
                     for t in x.targets:
@@ -462,6 +471,14 @@ def _uses():
                     for i in x.items:
                         if i.optional_vars is not None:
                             write_target(i.optional_vars, "with")
+                elif isinstance(x, ast.Call) and isinstance(x.func, ast.Attribute) and x.func.attr in MUTATORS \
+                        and _root_name(x.func.value) is not None and not is_global_name(_root_name(x.func.value)):
+                    root = _root_name(x.func.value)
+                    if root in params and root not in ("self", "cls"):
+                        writes.append((where, f"PARAM-CALL {_txt(x.func)}"))
+                    elif root in tainted:
+                        writes.append((where, f"ALIAS-CALL {_txt(x.func)}"))
+
                 elif isinstance(x, ast.Name) and isinstance(x.ctx, ast.Load) and is_global_name(x.id):
                     p = parent.get(id(x))
                     role = "read"
